@@ -402,6 +402,8 @@ class PyvalColorizer:
                 return
             if isinstance(result[-1], nodes.Element):
                 if len(result[-1].children) >= 1:
+                    # never edit in place: the node may be one of the shared LINEWRAP, ELLIPSIS, ... instances
+                    result[-1] = result[-1].deepcopy()
                     data = result[-1][-1].astext()
                     trim = min(num_chars, len(data))
                     result[-1][-1] = nodes.Text(data[:-trim])
